@@ -286,6 +286,12 @@ class Thm:
         A[s] |- B[s]  where s is substitution on terms
 
         """
+        # Only closed terms can be substituted: a loose bound variable
+        # would be captured by the binders of the sequent.
+        for t in list(inst.values()) + list(inst.var_inst.values()):
+            if t.is_open():
+                raise InvalidDerivationException("substitution")
+
         try:
             # The instantiation of type variables is determined by the
             # schematic variables of the whole sequent, and is applied to
